@@ -153,18 +153,29 @@ Observed(res) ==
     ELSE [f |-> res.f, fn |-> [i \in 1..NPts(fors[res.f]) |-> OffGrid]]
 
 AdoptEdge(s, res) == (s :> Observed(res)) @@ edges
-AdoptId(s, res)   == (s :> (IF Has(res, "id") THEN res.id ELSE << >>)) @@ ids
+\* identity (what dd_edge::operator== compares: node, edge value words, edge value
+\* type) followed by the exact fingerprint of the function table
+AdoptId(s, res)   == (s :> (IF Has(res, "id") THEN res.id \o (IF Has(res, "fh") THEN res.fh ELSE << >>) ELSE << >>)) @@ ids
+IdOf(x) == SubSeq(x, 1, 5)
+FhOf(x) == SubSeq(x, 6, Len(x))
+
+\* do the edge in slot t and the observed result denote the same function?  Tables
+\* are compared directly; if either holds a value the trace encoding cannot carry
+\* (OffGrid) the exact fingerprints recorded by the driver are compared instead
+SameFunction(t, res) ==
+    IF HasOff(edges[t].fn) \/ HasOff(res.fn)
+    THEN Has(res, "fh") /\ Len(ids[t]) > 5 /\ FhOf(ids[t]) = res.fh
+    ELSE edges[t].fn = res.fn
 
 \* C01: within one forest, equal identity <=> equal function, for the new
 \* result against every other held edge
 CanonViol(s, res) ==
     IF res.f < 0 \/ ~Has(res, "id") \/ ~Has(res, "fn") THEN {}
-    ELSE IF HasOff(res.fn) THEN {}
     ELSE LET others == {t \in DOMAIN edges \ {s} :
                             /\ edges[t].f = res.f
                             /\ t \in DOMAIN ids /\ ids[t] # << >>
-                            /\ ~HasOff(edges[t].fn)}
-             bad == {t \in others : (ids[t] = res.id) # (edges[t].fn = res.fn)}
+                            /\ (HasOff(edges[t].fn) \/ HasOff(res.fn)) => (Has(res, "fh") /\ Len(ids[t]) > 5)}
+             bad == {t \in others : (IdOf(ids[t]) = res.id) # SameFunction(t, res)}
          IN IF bad = {} THEN {} ELSE {V("C01", "identity-vs-function")}
 
 PropOfBin(op) ==
@@ -288,7 +299,7 @@ DoCopy(ev) ==
        THEN /\ edges' = AdoptEdge(ev.s, ev.res)
             /\ ids' = AdoptId(ev.s, ev.res)
             /\ viol' = viol \cup EdgeViol(edges[ev.src], ev.res, "C06")
-                            \cup (IF ev.res.f >= 0 /\ ev.src \in DOMAIN ids /\ ids[ev.src] # ev.res.id
+                            \cup (IF ev.res.f >= 0 /\ ev.src \in DOMAIN ids /\ ids[ev.src] # << >> /\ IdOf(ids[ev.src]) # ev.res.id
                                   THEN {V("C01", "copy-has-different-identity")} ELSE {})
        ELSE /\ Same(<<edges, ids>>)
             /\ viol' = viol \cup {V("C06", "copy-edge-failed-" \o ev.err)}
@@ -361,9 +372,10 @@ ObsViol(E) ==
 
 \* C01 over all observed edges
 ObsCanonViol(E) ==
-    LET idx == {x \in 1..Len(E) : E[x].f >= 0 /\ Has(E[x], "fn") /\ ~HasOff(E[x].fn)}
+    LET idx == {x \in 1..Len(E) : E[x].f >= 0 /\ Has(E[x], "fn") /\ Has(E[x], "fh")}
+        same(x, y) == IF HasOff(E[x].fn) \/ HasOff(E[y].fn) THEN E[x].fh = E[y].fh ELSE E[x].fn = E[y].fn
         bad == {<<x, y>> \in idx \X idx :
-                    x < y /\ E[x].f = E[y].f /\ ((E[x].id = E[y].id) # (E[x].fn = E[y].fn))}
+                    x < y /\ E[x].f = E[y].f /\ ((E[x].id = E[y].id) # same(x, y))}
     IN IF bad = {} THEN {} ELSE {V("C01", "identity-vs-function")}
 
 DoObs(ev) ==
@@ -373,7 +385,9 @@ DoObs(ev) ==
                     THEN Observed(ev.E[CHOOSE x \in 1..Len(ev.E) : ev.E[x].s = s]) ELSE edges[s]]
     /\ ids' = [s \in DOMAIN ids |->
                     IF \E x \in 1..Len(ev.E) : ev.E[x].s = s /\ Has(ev.E[x], "id")
-                    THEN ev.E[CHOOSE x \in 1..Len(ev.E) : ev.E[x].s = s /\ Has(ev.E[x], "id")].id ELSE ids[s]]
+                    THEN LET o == ev.E[CHOOSE x \in 1..Len(ev.E) : ev.E[x].s = s /\ Has(ev.E[x], "id")]
+                         IN o.id \o (IF Has(o, "fh") THEN o.fh ELSE << >>)
+                    ELSE ids[s]]
     /\ Same(<<lib, doms, fors, nextFid, files, err>>)
 
 \* queries: no state change; the answer must be the specification's
@@ -504,8 +518,9 @@ AdoptRead(ev) ==
                     ELSE edges[s]]
     /\ ids' = [s \in DOMAIN ids \cup {ev.res[x].s : x \in 1..Len(ev.res)} |->
                     IF \E x \in 1..Len(ev.res) : ev.res[x].s = s
-                    THEN ev.res[CHOOSE x \in 1..Len(ev.res) : ev.res[x].s = s
-                                 /\ \A y \in 1..Len(ev.res) : ev.res[y].s = s => y <= x].id
+                    THEN LET o == ev.res[CHOOSE x \in 1..Len(ev.res) : ev.res[x].s = s
+                                 /\ \A y \in 1..Len(ev.res) : ev.res[y].s = s => y <= x]
+                         IN o.id \o (IF Has(o, "fh") THEN o.fh ELSE << >>)
                     ELSE ids[s]]
 
 DoRead(ev) ==
